@@ -172,6 +172,11 @@ where
         for val in self.output_f[new_len..].iter_mut() {
             *val = Complex::zero();
         }
+        // The first bin of the spectrum of a real signal is real. For finite input the product
+        // above has an imaginary part of exactly zero, for NaN or infinite input samples it is NaN
+        // and the inverse transform would refuse the spectrum. Let such samples propagate
+        // to the output of this channel as NaN instead of making the call panic.
+        self.output_f[0].im = T::zero();
         // IFFT result, store result and overlap.
         self.ifft
             .process_with_scratch(
